@@ -331,7 +331,9 @@ static void encode_imm_operation(struct instr *instrc) {
       ((instrc->opd[0].reg & REG_MASK) == al &&
        instrc->cons != MAX_UNSIGNED_32BIT &&
        IN_RANGE(instrc->cons, MAX_SIGNED_8BIT + 1, NEG64BIT - 1) &&
-       !(IN_RANGE(instrc->cons, NEG80BIT, NEG64BIT - 1))))
+       !(IN_RANGE(instrc->cons, NEG80BIT, NEG64BIT - 1)) &&
+       // (0xffffff80..0xffffffff becomes a sign extended imm8: not this form)
+       !(IN_RANGE(instrc->cons, NEG80_32BIT, MAX_UNSIGNED_32BIT))))
     instrc->key++;
 }
 
